@@ -176,6 +176,7 @@ def apply_log_entries(ctx):
     a1 = so.get('raftLastApplied')
     ctx.prove(And(a1 >= a0, a1 <= Max(c0, a0)), 'C01+C04:R11.applied-monotone-and-within-commit')
     ctx.prove(so.get('raftCommitIndex') == c0, 'C04+C01:R11.commit-untouched')
+    ctx.prove(Implies(c0 <= log0.last_idx(), And(a1 >= to_z3(log0.first), a1 <= log0.last_idx())), 'C01+C04:I2.applied-within-journal-kept-by-the-apply-loop')
     ctx.prove(log_same(old.get('raftLog'), so.log()), 'C01:R11.journal-untouched')
     # O17.5 / C12 progress: the loop ends either at the commit index or in front of an unsupported VERSION entry
     stopped_at = a1 + 1
